@@ -1329,6 +1329,10 @@ pub fn parse_chunk_size(buf: &[u8])
                 size += (b + 10 - b'A') as u64;
             }
             b'\r' => {
+                // chunk-size = 1*HEXDIG: a line without any digit is invalid
+                if count == 0 {
+                    return Err(InvalidChunkSize);
+                }
                 match next!(bytes) {
                     b'\n' => break,
                     _ => return Err(InvalidChunkSize),
@@ -1336,6 +1340,9 @@ pub fn parse_chunk_size(buf: &[u8])
             }
             // If we weren't in the extension yet, the ";" signals its start
             b';' if !in_ext => {
+                if count == 0 {
+                    return Err(InvalidChunkSize);
+                }
                 in_ext = true;
                 in_chunk_size = false;
             }
@@ -1343,7 +1350,12 @@ pub fn parse_chunk_size(buf: &[u8])
             // extension separator token (";") due to the "implied *LWS rule".
             b'\t' | b' ' if !in_ext && !in_chunk_size => {}
             // LWS can follow the chunk size, but no more digits can come
-            b'\t' | b' ' if in_chunk_size => in_chunk_size = false,
+            b'\t' | b' ' if in_chunk_size => {
+                if count == 0 {
+                    return Err(InvalidChunkSize);
+                }
+                in_chunk_size = false
+            }
             // We allow any arbitrary octet once we are in the extension, since
             // they all get ignored anyway. According to the HTTP spec, valid
             // extensions would have a more strict syntax:
